@@ -1184,6 +1184,19 @@ class Lib:
         r = self.compare_ext(interp, op, a, b, node)
         if r is not NotImplemented:
             return r
+        if isinstance(a, SObj) or isinstance(b, SObj):
+            # rich comparison methods of repository classes (forward, then reflected)
+            fwd = {"<": "__lt__", "<=": "__le__", ">": "__gt__", ">=": "__ge__"}
+            rev = {"<": "__gt__", "<=": "__ge__", ">": "__lt__", ">=": "__le__"}
+            if isinstance(a, SObj):
+                r = self.dunder(interp, a, fwd[op], [b], node)
+                if r is not NotImplemented:
+                    return r
+            if isinstance(b, SObj):
+                r = self.dunder(interp, b, rev[op], [a], node)
+                if r is not NotImplemented:
+                    return r
+            raise PyRaise("TypeError", "ordering comparison not supported", node)
         if a is None or b is None:
             raise PyRaise("TypeError", "ordering comparison with None", node)
         interp.err(node, "%s on %s and %s" % (op, type(a).__name__, type(b).__name__))
